@@ -438,7 +438,7 @@ func checkType(res *core.Result, pkg *packages.Package, gt *graphType) {
 						Rule: "GRAPHINV.converse",
 						Key:  fmt.Sprintf("GRAPHINV.converse|%s|%s", m.name, e.String()),
 						Pos:  core.Pos(e.pos), Func: m.name,
-						Msg:  fmt.Sprintf("adjacency effect %s has no converse %s in this method: the forward and reverse relations stop being mirror images", e.String(), want),
+						Msg: fmt.Sprintf("adjacency effect %s has no converse %s in this method: the forward and reverse relations stop being mirror images", e.String(), want),
 					})
 				}
 			}
@@ -604,7 +604,7 @@ func (m *methodCtx) checkIDs(effs []effect) {
 				Rule: "GRAPHINV.ids",
 				Key:  fmt.Sprintf("GRAPHINV.ids|%s|nodes[%s]", m.name, key),
 				Pos:  core.Pos(as.Pos()), Func: m.name,
-				Msg:  fmt.Sprintf("node key %s is inserted but %s.Use(%s) does not follow on every path: NewNode could later issue a colliding ID", key, gt.nodeIDs, key),
+				Msg: fmt.Sprintf("node key %s is inserted but %s.Use(%s) does not follow on every path: NewNode could later issue a colliding ID", key, gt.nodeIDs, key),
 			})
 		}
 		return true
@@ -646,7 +646,7 @@ func (m *methodCtx) checkIDs(effs []effect) {
 				Rule: "GRAPHINV.ids",
 				Key:  fmt.Sprintf("GRAPHINV.ids|%s|Release(%s)", m.name, key),
 				Pos:  core.Pos(rel.Pos()), Func: m.name,
-				Msg:  fmt.Sprintf("%s.Release(%s) is not preceded on every path by delete(%s, %s): a live node's ID would be handed out again", gt.nodeIDs, key, gt.nodes, key),
+				Msg: fmt.Sprintf("%s.Release(%s) is not preceded on every path by delete(%s, %s): a live node's ID would be handed out again", gt.nodeIDs, key, gt.nodes, key),
 			})
 		}
 	}
@@ -692,7 +692,7 @@ func (m *methodCtx) checkIDs(effs []effect) {
 					Rule: "GRAPHINV.ids",
 					Key:  fmt.Sprintf("GRAPHINV.ids|%s|lines", m.name),
 					Pos:  core.Pos(adds[0].pos), Func: m.name,
-					Msg:  fmt.Sprintf("a line with ID %s is inserted but %s[..][..].Use(%s) is not reached on every path: NewLine could issue a colliding line ID", adds[0].l, gt.lineIDs, adds[0].l),
+					Msg: fmt.Sprintf("a line with ID %s is inserted but %s[..][..].Use(%s) is not reached on every path: NewLine could issue a colliding line ID", adds[0].l, gt.lineIDs, adds[0].l),
 				})
 			}
 		}
@@ -722,7 +722,7 @@ func (m *methodCtx) checkRemoveNode(effs []effect) {
 				Rule: "GRAPHINV.remove",
 				Key:  fmt.Sprintf("GRAPHINV.remove|%s|%s", m.name, n),
 				Pos:  core.Pos(m.fd.Pos()), Func: m.name,
-				Msg:  fmt.Sprintf("RemoveNode lacks the effect %s: edges incident to the removed node would survive in one direction", n),
+				Msg: fmt.Sprintf("RemoveNode lacks the effect %s: edges incident to the removed node would survive in one direction", n),
 			})
 		}
 	}
